@@ -267,7 +267,16 @@ Fixpoint set_hps (fc : list (bytes * N)) (names : list bytes) (i : nat) : M (byt
   | [] => ret tt
   | nm :: r => set_config fc nm (fun v o => set_hp (set_nth_hp i v (o_hp o)) o) ;;; set_hps fc r (S i)
   end.
+(* `it->second < 0` on a float given by its word: sign bit set, not -0, not a NaN *)
+Definition float_neg (w : N) : bool := (0x80000000 <? w) && (w <=? 0xff800000).
+(* "Rejects negative settings before changing anything, as the setters do." (fix 82dd99a) *)
+Definition check_nonneg {O} (cfg : list (bytes * N)) (key : bytes) : M (bytes * O) unit :=
+  match assoc bytes_eqb key cfg with
+  | Some v => guard (negb (float_neg v))
+  | None => ret tt
+  end.
 Definition set_configs (uc fc : list (bytes * N)) : M (bytes * optim) unit :=
+  check_nonneg fc N_LR_SCALE ;;; check_nonneg fc N_L2 ;;; check_nonneg fc N_CLIP ;;;
   set_config uc N_EPOCH set_epoch ;;;
   set_config fc N_LR_SCALE set_lr_scale ;;;
   set_config fc N_L2 set_l2 ;;;
